@@ -99,8 +99,33 @@ func Corpus() []Program {
 }
 
 // NewParams returns compiler parameters bound to a DRBG.
+// PkgDir holds the harness-owned MPCL packages (vsimnative: native circuits with OR gates).
+var PkgDir = func() string {
+	d := os.Getenv("VERIF_DIR")
+	if d == "" {
+		d = "/verif"
+	}
+	return filepath.Join(d, "mpclpkgs")
+}()
+
+// NativeProgram calls native circuits that contain OR, XNOR, AND and INV gates.
+var NativeProgram = Program{Name: "crafted/native-or", Src: `package main
+
+import (
+	"vsimnative"
+)
+
+func main(a, b [3]byte) (uint8, uint8, uint8) {
+	x := vsimnative.Or8(a[0], b[0])
+	y := vsimnative.Mix8(a[1], b[1])
+	z := vsimnative.Or8(x ^ a[2], y & b[2])
+	return x, y, z + vsimnative.Mix8(z, x)
+}
+`}
+
 func NewParams(r *simrand.DRBG) *utils.Params {
 	p := utils.NewParams()
+	p.PkgPath = []string{PkgDir}
 	p.Config = &env.Config{Rand: r}
 	p.Warn.DisableAll()
 	return p
@@ -462,6 +487,9 @@ func ioString(io circuit.IO) string {
 
 // DrawProgram draws a program: corpus or generated.
 func DrawProgram(t *rt.Tape) (Program, [][]int) {
+	if t.Choose(rt.SGen, 40) == 0 {
+		return NativeProgram, [][]int{{64}, {64}}
+	}
 	if t.Choose(rt.SGen, 4) == 0 {
 		c := Corpus()
 		if len(c) > 0 {
